@@ -17,6 +17,8 @@ def _jobs(tier):
     # does all day) -- usage counters and "self-tuning" state only move when nothing else intervenes
     for call in range(0, 11):
         jobs.append(dict(sub="module", count=450 * mult, fix=dict(call=call, k=(4, 7), mtype=0, cfg=0, bits=(1, 10))))
+    # long transforms (>= 2^15 coefficients in one dft / idft call: any size-dependent strategy of the transforms)
+    jobs.append(dict(sub="module", count=160 * mult, fix=dict(call=(1, 3), k=(13, 14), s1=(2, 5), s2=(2, 5)), split=2))
     jobs.append(dict(sub="tables", count=4000 * mult, fix=dict(logm=(0, 7)), split=2))
     jobs.append(dict(sub="tables", count=400 * mult, fix=dict(logm=(8, 12))))
     jobs.append(dict(sub="tables", count=60 * mult, fix=dict(logm=(13, 16), fn=(0, 3), nbuf=(1, 2)), split=2))
